@@ -417,3 +417,7 @@ pub fn attach_basic_debug_info<T>(rv: Result<T, Error>, source: &str) -> Result<
         rv
     }
 }
+
+#[cfg(kani)]
+#[path = "/verif/kani/error.rs"]
+mod verif_kani;
